@@ -36,4 +36,4 @@ kf = json.load(open(os.path.join(ROOT, "known_findings.json")))
 print("| finding | property | status | what |")
 print("|---|---|---|---|")
 for f in kf:
-    print(f"| {f['id']} | {f['property']} | {f['status']}{' ' + f.get('commit', '') if f.get('commit') else ''} | {f['what'][:260].replace('|', '/')} |")
+    print(f"| {f['id']} | {f['property']} | {f['status']}{' ' + f.get('commit', '') if f.get('commit') else ''} | {(f.get('what') or f.get('line') or '')[:260].replace('|', '/')} |")
